@@ -233,7 +233,23 @@ def check_property(pid, tier, seed):
         if not (replay_info and replay_info['ok']):
             dyn_contracts.append(dict(id=c['id'], status='not-run'))
             continue
-        if c.get('kind') == 'cli-literals':
+        if c.get('kind') == 'cli-front':
+            d, err = witness.cli_front_end(REPO, BUILD, log)
+            if d is None:
+                dyn_contracts.append(dict(id=c['id'], status='not-run', detail=str(err)))
+                continue
+            if not d['failures']:
+                dyn_contracts.append(dict(id=c['id'], status='held-on-enumerated-inputs', tried=d.get('tried'), text=c['text']))
+            for f in d['failures']:
+                dyn_contracts.append(dict(id=c['id'], status='violated', input=f['input'], clause=f['clause'], detail=f['detail'],
+                                          obligation=c['obligation'], replay=c.get('replay'), text=c['text'], tried=d.get('tried')))
+            continue
+        if c.get('kind') == 'cli-signature':
+            d, err = witness.cli_signature_mutations(REPO, BUILD, log, tier)
+            if d is not None and d.get('broken'):
+                dyn_contracts.append(dict(id=c['id'], status='not-run', detail=d.get('detail')))
+                continue
+        elif c.get('kind') == 'cli-literals':
             d, err = witness.cli_literals(REPO, BUILD, log)
             if d is not None and d.get('broken'):
                 dyn_contracts.append(dict(id=c['id'], status='not-run', detail=d.get('detail')))
@@ -294,23 +310,31 @@ def check_property(pid, tier, seed):
             lines.append(f'VIOLATION property={pid} replay={rp} obligation={name} input={json.dumps(w.get("input"))}')
         else:
             lines.append(f'VIOLATION property={pid} replay={rp} obligation={name} no-failing-input-found')
+    known_hits = {}
     for c in dyn_contracts:
         if c['status'] != 'violated':
             continue
         name = f"{c['obligation']}[{c.get('clause')}]"
         if name in top_failed:
             continue
+        seen_dyn = locals().setdefault('_seen_dyn', set())
+        if (name, c.get('input')) in seen_dyn:
+            continue
+        seen_dyn.add((name, c.get('input')))
         w = dict(found=True, input=c['input'], clause=c.get('clause'), detail=c.get('detail'),
                  replay_cmd=([c['replay'], c['input']] if c.get('replay') else None))
         rp = write_replay(pid, name, dict(kind='dynamic-contract', fn=c['id'], message=c['text'], site_text='', clause_text=''),
                           dict(unit='dynamic:' + c['id'], verifier_output=[]), w)
         k = match_known(known, pid, name, w)
         if k:
-            lines.append(f'KNOWN-FINDING: property={pid} {k.get("what", name)} obligation={name} input={json.dumps(w.get("input"))}')
+            kn = known_hits.setdefault(k['_line'], dict(k=k, name=name, inputs=[]))
+            kn['inputs'].append(w.get('input'))
             continue
         n_viol += 1
         exit_code = 1
         lines.append(f'VIOLATION property={pid} replay={rp} obligation={name} input={json.dumps(c["input"])} (contract evaluated at run time on the real code)')
+    for kl, kn in known_hits.items():
+        lines.append(f'KNOWN-FINDING: property={pid} {kn["k"].get("what", kn["name"])} obligation={kn["name"]} inputs={len(kn["inputs"])} first={json.dumps(kn["inputs"][0])}')
     if aux_failed and not top_failed:
         # the proof no longer goes through at an auxiliary obligation (loop invariant, lemma, assert): undecided
         # unless the dynamic contract evaluation exhibits a concrete failing input on the real code.
@@ -393,6 +417,10 @@ def match_known(known, pid, name, w):
             if w.get('found') and w.get('input') == k['input']:
                 return k
             continue
+        if 'input_re' in k:
+            if w.get('found') and isinstance(w.get('input'), str) and re.search(k['input_re'], w['input']):
+                return k
+            continue
         return k
     return None
 
@@ -415,6 +443,20 @@ def replay_file(pid, path):
         print(f'replay file names obligation {d.get("obligation")}; no concrete input recorded ({d.get("note")})')
         print('\n'.join(d.get('verifier_output', [])[:5]))
         return 1
+    if w['replay_cmd'][0] == '@cli-front':
+        dd, err = witness.cli_front_end(REPO, BUILD, log, only=w['replay_cmd'][1])
+        print(json.dumps(dd))
+        if dd and dd.get('found'):
+            print(f'VIOLATION property={pid} replay={path} obligation={d.get("obligation")}')
+            return 1
+        return 0
+    if w['replay_cmd'][0] == '@cli-signature':
+        dd, err = witness.cli_signature_mutations(REPO, BUILD, log, 'thorough', only=w['replay_cmd'][1])
+        print(json.dumps(dd))
+        if dd and dd.get('found'):
+            print(f'VIOLATION property={pid} replay={path} obligation={d.get("obligation")}')
+            return 1
+        return 0
     if w['replay_cmd'][0] == '@cli-literals':
         dd, err = witness.cli_literals(REPO, BUILD, log, only=w['replay_cmd'][1])
         print(json.dumps(dd))
